@@ -148,16 +148,27 @@ func evalRun(input string) string {
 		return "BAD"
 	}
 	o := parseEvalOpts(parts[1])
-	var texts []string
+	var texts, given []string
 	for _, h := range strings.Split(parts[2], "|") {
-		texts = append(texts, unhx(h))
+		// <text>^<tree>: the generator supplies the tree the documentation promises for this text
+		if i := strings.IndexByte(h, '^'); i >= 0 {
+			texts = append(texts, unhx(h[:i]))
+			given = append(given, unhx(h[i+1:]))
+		} else {
+			texts = append(texts, unhx(h))
+			given = append(given, "")
+		}
 	}
 	sb := &strings.Builder{}
 	for i, t := range texts {
 		if i > 0 {
 			sb.WriteByte('|')
 		}
-		sb.WriteString(astOf(t))
+		if given[i] != "" {
+			sb.WriteString(given[i])
+		} else {
+			sb.WriteString(astOf(t))
+		}
 	}
 	for ci, cfg := range []struct {
 		name            string
@@ -189,6 +200,10 @@ func evalGen(tier string, r *rng, emit func(string)) {
 		n = 30000
 	}
 	for i := 0; i < n; i++ {
+		if prop == "C01" && i%4 == 3 {
+			emit(prop + ";steps=200000;" + genPrecCase(r))
+			continue
+		}
 		stmts := genEvalProgram(r, 3+r.intn(8), prop == "C07", false)
 		// either one input holding the whole program, or one input per top-level statement
 		var texts []string
